@@ -662,7 +662,18 @@ func (o *orbitDB) DetermineAddress(ctx context.Context, name string, storeType s
 	}
 
 	// Create the database address
-	return address.Parse(path.Join("/orbitdb", manifestHash.String(), name))
+	dbAddress, err := address.Parse(path.Join("/orbitdb", manifestHash.String(), name))
+	if err != nil {
+		return nil, err
+	}
+
+	// path.Join cleans ".." segments: a name such as "../<other root>/x" must not
+	// walk out of this database's own root and yield another database's address
+	if !dbAddress.GetRoot().Equals(manifestHash) {
+		return nil, fmt.Errorf("invalid database name: address is not rooted at the database manifest")
+	}
+
+	return dbAddress, nil
 }
 
 func (o *orbitDB) loadCache(directory string, dbAddress address.Address) (datastore.Datastore, error) {
